@@ -23,6 +23,12 @@ PROP = dict(
         "plus n/6 nested-module layouts x 2: go.mod at the base and/or 1-2 nested directories, the same relative names with "
         "different contents in every directory, module-rooted imports at every depth (also directly in a nested root), the main "
         "script's imports in both orders (root-cache state of an earlier import is live for the later ones)",
+        "plus n/10 'routes' layouts x 4 (imports in both orders x main given absolutely and relatively): a nested module (sometimes "
+        "with a further module inside) whose files d/e are reached several times in one evaluation by different spellings "
+        "(./d and /d) from different importers - a neighbour inside the nested module, a deeper script, a script outside - with the "
+        "same names and different contents in the outer module; few module-rooted imports, so a single skipped addModuleSentinel/"
+        "bundleLocalFile (e.g. on an import-cache hit) shows in the archive's file list; the model has no cache, i.e. it predicts the "
+        "archive independently of cache state",
         "data files .json/.yaml/.yml/.txt/.b with implicit decoders, explicit //encoding.json and //encoding.bytes decoders",
         "the working directory is process-wide: the harness runs these cases with one worker",
     ],
